@@ -34,6 +34,8 @@ def t_struct(chk, ix):
     rules_parser.check_termination(chk, ix)
     rules_parser.check_reset_clears(chk, ix)
     rules_parser.check_model_constructors(chk, ix)
+    rules_parser.check_error_message_hostile(chk, ix)
+    rules_parser.check_regex_ambiguity(chk, ix)
 
 
 def run(chk, ix, tier):
@@ -45,3 +47,5 @@ def run(chk, ix, tier):
     chk.require_instances("E2", 4)
     chk.require_instances("E8", 10)
     chk.require_instances("E4", 8)
+    chk.require_instances("E9", 30)
+    chk.require_instances("E7", 2)
